@@ -157,6 +157,9 @@ func (s *Server) Close() {
 	s.Lis.Close()
 }
 
+// NewListener returns a fresh bufconn listener (for servers the check builds itself).
+func NewListener() *bufconn.Listener { return bufconn.Listen(1 << 20) }
+
 var targetSeq atomic.Int64
 
 // UniqueName returns a process-unique name (for targets / registries).
